@@ -206,8 +206,8 @@ func resumeOne(c *resCase) []interface{} {
 			if r.obs.COK && r.obs.SOK && !r.obs.SResumed && (r.goSaved != nil || r.rawSaved != nil) {
 				ns := &savedSess{from: i, goCS: r.goSaved, raw: r.rawSaved, master: r.master,
 					vers: vers(r.obs.SVers), suite: suiteID[r.obs.SSuite]}
-				if r.obs.SPeer > 0 {
-					ns.certs = [][]byte{keys.clientLeafDER}
+				if id := clientIdentity(st.Cl.Cert, st.Cl.CA); id != nil && r.obs.SPeer > 0 {
+					ns.certs = [][]byte{id.der}
 				}
 				if r.goSaved != nil {
 					if t, _, err := r.goSaved.ResumptionState(); err == nil {
